@@ -74,6 +74,9 @@ THEOREMS = [
     "VK.C08_plurality_ballot_order",
     "VK.C08_plurality_ballot_split",
     "VK.C08_plurality_ballot_merge",
+    "VK.C08_tiers_rep",
+    "VK.C08_domsets_rep",
+    "VK.C08_condoborda_rep",
 ]
 RULE = ("cases = deterministic configuration of every ranking / scoring / pairwise rule (as in C10) on a random profile; "
         "five transformations of the input: rename the candidates by a random bijection into a second name pool (sort "
